@@ -49,11 +49,69 @@ def check_close_all(ctx: Ctx, oid: str) -> None:
             ob.violation(f_fin, f_fin.node, "_finished_receiving does not close every registered channel (sendonly): blocked receivers never see EOF", construct="no channel sweep")
         if not seen.get("callbacks"):
             ob.violation(f_fin, f_fin.node, "_finished_receiving does not fire the endmarker of every registered callback", construct="no callback sweep")
+        # sweep order: _no_longer_opened also removes the id from the (weak) `_channels` table, so a callback sweep that runs
+        # first hides every live channel with a callback from the channel sweep -- its `_receiveclosed` is never set and
+        # waitclose() on it blocks forever after a connection loss
+        f_nlo = repo.func(f"{GB}.ChannelFactory._no_longer_opened")
+        nlo_pops = any((isinstance(x, ast.Call) and isinstance(x.func, ast.Attribute) and x.func.attr in ("pop", "clear", "popitem") and "_channels" in unparse(x.func.value))
+                       or (isinstance(x, ast.Delete) and "_channels" in unparse(x)) for x in repo.own_nodes(f_nlo))
+        ch_loops = [l for l in loops if "self._channels" in xtext(repo, f_fin, l.iter)]
+        cb_loops = [l for l in loops if "self._callbacks" in xtext(repo, f_fin, l.iter) and "self._channels" not in xtext(repo, f_fin, l.iter)]
+        if nlo_pops and ch_loops and cb_loops:
+            cfg_f = build_cfg(repo, f_fin, Oracle(repo, f_fin, precise=True))
+            heads = {id(n.owner): n for n in cfg_f.nodes if n.kind == "for"}
+            hc, hb = heads.get(id(ch_loops[0])), heads.get(id(cb_loops[0]))
+            ok = hc is not None and hb is not None and cfg_f.dominated_by(hb.id, hc.id)
+            ob.site(f_fin, cb_loops[0], "the channel sweep runs before the callback sweep (which also unregisters the ids from _channels)", ok=ok)
+            if not ok:
+                ob.violation(f_fin, cb_loops[0], "the callback sweep (_no_longer_opened pops the id from _channels) runs before the channel sweep: a live channel with a callback is "
+                                                 "no longer in _channels when the channels are closed, its _receiveclosed is never set and waitclose() blocks forever after a connection loss",
+                             construct="callback sweep before channel sweep")
         # the flag is set before the sweep
         st = [n for n in repo.own_nodes(f_fin) if isinstance(n, ast.Assign) and "finished" in unparse(n.targets[0])]
         sweeps = [l for l in loops if "self._channels" in xtext(repo, f_fin, l.iter) or "self._callbacks" in xtext(repo, f_fin, l.iter)]
         if st and sweeps and st[0].lineno > min(l.lineno for l in sweeps):
             ob.violation(f_fin, st[0], "the finished flag is set after the sweep: a channel created in between is never closed")
+
+
+
+def check_receiver_epilogue(ctx: Ctx, oid: str) -> None:
+    """every way out of the receiver loop reaches _finished_receiving() (channels closed, end markers fired) and then
+    _terminate_execution() (shared: C04.c, C10.l)"""
+    repo = ctx.repo
+    f_recv = repo.func(f"{GB}.BaseGateway._thread_receiver")
+    with ctx.obligation(oid, "epilogue") as ob:
+        cfg = build_cfg(repo, f_recv, Oracle(repo, f_recv, nonraising=NONRAISING))
+        handlers = [n for n in cfg.nodes if n.kind == "except" and n.id in cfg.live()]
+        ob.require(len(handlers) >= 3, "receiver loop handlers not found")
+        fin = cfg_nodes_with_call(cfg, lambda c: callee_attr(c) == "_finished_receiving")
+        term = cfg_nodes_with_call(cfg, lambda c: callee_attr(c) == "_terminate_execution")
+        ob.require(len(fin) >= 1 and len(term) >= 1, "_finished_receiving / _terminate_execution calls not found in _thread_receiver")
+        classes = set()
+        for h in handlers:
+            t = h.ast.type
+            names = [unparse(x) for x in (t.elts if isinstance(t, ast.Tuple) else [t])] if t is not None else ["BaseException"]
+            classes |= set(names)
+            p = cfg.must_pass([h.id], [cfg.exit.id, cfg.raise_exit.id], {f.id for f in fin})
+            ob.site(f_recv, h.ast, f"handler ({', '.join(names)}) reaches _finished_receiving()")
+            if p is not None:
+                ob.violation(f_recv, h.ast, f"the receiver thread can end in handler ({', '.join(names)}) without closing the channels: blocked receivers hang forever",
+                             path=cfg.describe_path(p))
+        for need in ("EOFError", "Exception", "KeyboardInterrupt", "GatewayReceivedTerminate"):
+            if need not in classes:
+                ob.violation(f_recv, f_recv.node, f"the receiver loop has no handler for {need}", construct=f"no handler {need}")
+        for f in fin:
+            starts = [m for (m, l) in cfg.succ[f.id] if not l.startswith("exc:")]
+            p = cfg.must_pass(starts, [cfg.exit.id, cfg.raise_exit.id], {t.id for t in term})
+            ob.site(f_recv, f.ast, "_finished_receiving() is followed by _terminate_execution()")
+            if p is not None:
+                ob.violation(f_recv, f.ast, "after closing the channels the receiver epilogue can skip _terminate_execution()", path=cfg.describe_path(p))
+        # the loop itself has no normal exit
+        loops = [n for n in repo.own_nodes(f_recv) if isinstance(n, ast.While)]
+        if len(loops) != 1 or repo.fold_in(loops[0].test, f_recv) not in (1, True) or any(isinstance(x, (ast.Break, ast.Return)) for x in ast.walk(loops[0])):
+            ob.violation(f_recv, loops[0] if loops else f_recv.node, "the receiver loop can be left without an exception (no epilogue reason recorded)")
+        tail = [callee_attr(c) for c in repo.calls_in(f_recv) if callee_attr(c) in ("close_read", "close_write", "trigger_shutdown")]
+        ob.note(f"recorded, not required (ProxyIO.close_read raises by design): tail = {tail}")
 
 
 
@@ -94,38 +152,7 @@ def check(ctx: Ctx) -> None:
             if not defs or not cfg.dominated_by(ctor[0].id, defs[0].id):
                 ob.violation(f_from, c, "the payload handed to Message() is not the result of a completed exact read")
 
-    with ctx.obligation("C04.c", "epilogue") as ob:
-        cfg = build_cfg(repo, f_recv, Oracle(repo, f_recv, nonraising=NONRAISING))
-        handlers = [n for n in cfg.nodes if n.kind == "except" and n.id in cfg.live()]
-        ob.require(len(handlers) >= 3, "receiver loop handlers not found")
-        fin = cfg_nodes_with_call(cfg, lambda c: callee_attr(c) == "_finished_receiving")
-        term = cfg_nodes_with_call(cfg, lambda c: callee_attr(c) == "_terminate_execution")
-        ob.require(len(fin) >= 1 and len(term) >= 1, "_finished_receiving / _terminate_execution calls not found in _thread_receiver")
-        classes = set()
-        for h in handlers:
-            t = h.ast.type
-            names = [unparse(x) for x in (t.elts if isinstance(t, ast.Tuple) else [t])] if t is not None else ["BaseException"]
-            classes |= set(names)
-            p = cfg.must_pass([h.id], [cfg.exit.id, cfg.raise_exit.id], {f.id for f in fin})
-            ob.site(f_recv, h.ast, f"handler ({', '.join(names)}) reaches _finished_receiving()")
-            if p is not None:
-                ob.violation(f_recv, h.ast, f"the receiver thread can end in handler ({', '.join(names)}) without closing the channels: blocked receivers hang forever",
-                             path=cfg.describe_path(p))
-        for need in ("EOFError", "Exception", "KeyboardInterrupt", "GatewayReceivedTerminate"):
-            if need not in classes:
-                ob.violation(f_recv, f_recv.node, f"the receiver loop has no handler for {need}", construct=f"no handler {need}")
-        for f in fin:
-            starts = [m for (m, l) in cfg.succ[f.id] if not l.startswith("exc:")]
-            p = cfg.must_pass(starts, [cfg.exit.id, cfg.raise_exit.id], {t.id for t in term})
-            ob.site(f_recv, f.ast, "_finished_receiving() is followed by _terminate_execution()")
-            if p is not None:
-                ob.violation(f_recv, f.ast, "after closing the channels the receiver epilogue can skip _terminate_execution()", path=cfg.describe_path(p))
-        # the loop itself has no normal exit
-        loops = [n for n in repo.own_nodes(f_recv) if isinstance(n, ast.While)]
-        if len(loops) != 1 or repo.fold_in(loops[0].test, f_recv) not in (1, True) or any(isinstance(x, (ast.Break, ast.Return)) for x in ast.walk(loops[0])):
-            ob.violation(f_recv, loops[0] if loops else f_recv.node, "the receiver loop can be left without an exception (no epilogue reason recorded)")
-        tail = [callee_attr(c) for c in repo.calls_in(f_recv) if callee_attr(c) in ("close_read", "close_write", "trigger_shutdown")]
-        ob.note(f"recorded, not required (ProxyIO.close_read raises by design): tail = {tail}")
+    check_receiver_epilogue(ctx, "C04.c")
 
     locks = LockSets(repo)
     f_fin = repo.func(f"{GB}.ChannelFactory._finished_receiving")
@@ -334,3 +361,7 @@ def check(ctx: Ctx) -> None:
         hs = [h for n in repo.own_nodes(f_from) if isinstance(n, ast.Try) for h in n.handlers]
         if not hs or not all(isinstance(h.body[-1], ast.Raise) and unparse(h.body[-1].exc).startswith("EOFError") for h in hs):
             ob.violation(f_from, f_from.node, "from_io's handler does not re-raise EOFError")
+
+    # "nothing blocks forever": everyone waiting for the receiver pool (Gateway.join() = WorkerPool.waitall()) is released when it ends
+    from ..report import borrow
+    borrow(ctx, "C09", {"C09.g": "C04.n"})
